@@ -115,5 +115,7 @@ def run(R):
         g('regexp_words_up_to_n', 'enum-regexp', {'r': desc(r), 'n': n}, lambda: chk_rx(r, n) + (('r01-%d' % i, n),), None)
         G = E.random_cfg(rnd, nv=3, max_rules=3, max_rhs=3, cnf=rnd.random() < 0.3); n = rnd.choice(NS)
         g('cfg_words_up_to_n', 'enum-cfg', {'G': desc(G), 'n': n}, lambda: chk_cfg(G, n) + (('r%d' % i, n),), None)
+        G2 = E.random_cnf_colliding_names(rnd); n = rnd.choice([2, 3, 4])
+        g('cfg_words_up_to_n', 'enum-cfg', {'G': desc(G2), 'n': n}, lambda: chk_cfg(G2, n) + (('names%d' % i, n),), None)
     R.bounds['enum'] = ('all DFAs <=2 states over {a,b}; epsilon-NFAs with 2 states over {a} (every 5th in quick); all regexps of size <=3; hand-written and seeded random PDAs '
-                        '(<=3 states, <=5 transitions, closure limit in {1000,40,30,5}); seeded random TMs (budgets 0..1000), CFGs (<=3 variables, epsilon/unit rules, 30% CNF); bounds n in 0..4')
+                        '(<=3 states, <=5 transitions, closure limit in {1000,40,30,5}); seeded random TMs (budgets 0..1000), CFGs (<=3 variables, epsilon/unit rules, 30% CNF; CNF grammars over variable names that concatenate ambiguously: A, B, AB, BB, AA); bounds n in 0..4')
